@@ -223,6 +223,34 @@ def rules(ck, P):
                 ck.check(not shared, "P2", "%s|callback#%d" % (b["q"], n_cb), "callback passed to %s captures no shared mutable state (%s)" % ((n.get("rvq") or n.get("q")).rsplit("::", 1)[-1], [c["var"] for c in a.get("caps", [])]),
                          "the callback passed to the parallel operator %s captures shared mutable state %s: concurrent items can read each other's results" % ((n.get("rvq") or n.get("q")).rsplit("::", 1)[-1], shared), ir.loc(a))
     ck.anchor("P2", "workspace callbacks passed to parallel operators", list(range(n_cb)), 2)
+    # ---- P5: the plain consumers hand every item to the callback exactly once: `self.stream.for_each(F)` on the whole stream (no adaptor),
+    # where F is the callback itself or a closure that calls it once with its own item on every path
+    from . import mvt as _mvt
+    for nm in ("for_each_sync", "for_each_async"):
+        fb = [b for b in ts if b["q"].endswith("::" + nm)]
+        if not ck.anchor("P5", nm, fb, 1):
+            continue
+        b = fb[0]
+        cbp = [x for p_ in b["params"] for x in ir.pat_binds(p_) if x["t"] == "F"]
+        al = ir.Aliases(b)
+        fe = [y for y in ir.walk_nodes(b["body"]) if y.get("k") == "mcall" and y.get("name") == "for_each" and "StreamExt" in (y.get("q") or "")]
+        okp, why = False, "%d for_each calls" % len(fe)
+        if len(fe) == 1 and cbp:
+            recv = ir.strip(fe[0]["recv"])
+            whole = recv.get("k") == "field" and recv.get("name") == "stream"
+            a0 = ir.strip(fe[0]["a"][0])
+            if a0.get("k") == "closure":
+                ps = [x["hid"] for p_ in a0["params"] for x in ir.pat_binds(p_)]
+
+                def is_cb(y):
+                    return y.get("k") == "call" and "f" in y and al.hid(y["f"]) == al.canon(cbp[0]["hid"]) and y.get("a") and ir.local_hid(y["a"][0]) in ps
+                cnt = _mvt.exit_counts(P, {"body": a0["body"]}, lambda y: 1 if is_cb(y) else None)
+                okp = whole and cnt == {1}
+                why = "callback invocations per item: %s, whole stream: %s" % (sorted(cnt), whole)
+            else:
+                okp = whole and al.hid(a0) == al.canon(cbp[0]["hid"])
+                why = "callback passed through: %s" % okp
+        ck.check(okp, "P5", b["q"], "%s hands every item of the stream to the callback exactly once" % nm, "%s does not call the callback once per item (%s): items never reach the consumer" % (nm, why), ir.loc(b))
     # ---- P4
     feb = [b for b in ts if b["q"].endswith("::for_each_buffered")]
     if ck.anchor("P4", "for_each_buffered", feb, 1):
